@@ -32,8 +32,10 @@ def histories(rng, tier):
     # buffer included) on 4-5 qubit registers with weight on the highest basis states
     for k in regcheck.thread_counts():
         for n in (4, 5):
+            hi = 1 << (n - 1)
             acts = [("raw", n, gen.random_state(rng, n)), ("threads", k), ("dump",), ("probs",),
-                    ("freq", shots // 4, (1 << n) - 1), ("samplestats", 20000, 30 if tier == "quick" else 200)]
+                    ("freq", shots // 4, (1 << n) - 1), ("seqfreq", shots // 4, hi | 1, 6), ("seqfreq", shots // 4, 6, hi | 1),
+                    ("samplestats", 20000, 30 if tier == "quick" else 200)]
             hs.append((rng.randrange(1 << 30), acts))
     return hs
 
@@ -97,7 +99,11 @@ def oracle(acts, recs):
                 z = (mean - count * pi) / math.sqrt(tvar / reps)
                 if abs(z) > 5.5:
                     fails.append("cell %d: mean %.2f vs %.2f expected (z = %.1f)" % (i, mean, count * pi, z))
-                if tvar > 20 and not (0.35 < var / tvar < 2.2):
+                # sample variance over `reps` histograms: chi-square band at 1e-7 per cell (0.28 .. 2.3 at 60 repetitions),
+                # widened by a tenth for the rounding / clamping of the counts
+                lo = stats.chi2.ppf(1e-7, reps - 1) / (reps - 1) * 0.9
+                hi = stats.chi2.ppf(1 - 1e-7, reps - 1) / (reps - 1) * 1.1
+                if tvar > 20 and not (lo < var / tvar < hi):
                     fails.append("cell %d: spread %.1f vs %.1f expected" % (i, var, tvar))
         elif r[0] in ("x", "died"):
             fails.append("panic/abort %s" % (r,))
